@@ -209,3 +209,45 @@ Proof.
         rewrite (Hk i E) in Hbi'. rewrite <- Hbusy in Hbi. unfold busy in Hbi, Hbi'. sproj.
         rewrite (bit_vset _ _ _ i _ Hrl) in Hbi'. destruct (N.eqb_spec id i); [congruence|congruence].
 Qed.
+
+(** (g) a parked collision is resolved by the final acknowledgement of its id: the parked publish
+    goes on the wire, recorded, and the flag clears — in that same step *)
+Theorem collision_resolved s q o s' rep :
+  Inv s -> collision s = Some q ->
+  (o = Inc (PPubAck (p_pkid q)) /\ pub_at s (p_pkid q) <> None
+   \/ o = Inc (PPubComp (p_pkid q)) /\ bit (outgoing_rel s) (p_pkid q) = true) ->
+  outcome s o = Some (s', rep) ->
+  rep = Some (PPublish q) /\ collision s' = None /\ vget (outgoing_pub s') (p_pkid q) = Some (Some q).
+Proof.
+  intros I Hc Ho Hn.
+  pose proof (inv_push s (EvIn (PPubAck (p_pkid q))) I) as I1.
+  pose proof (inv_push s (EvIn (PPubComp (p_pkid q))) I) as I1'.
+  destruct Ho as [[-> Hp] | [-> Hb]]; cbn [outcome handle_incoming_packet] in Hn.
+  - destruct (handle_incoming_puback_eff _ (p_pkid q) I1) as [[Hnone _] | [p0 [l [Eg [Hl Hrest]]]]].
+    { exfalso. apply Hp. exact Hnone. }
+    cbv zeta in Hrest. destruct Hrest as [He [H1 [Hpos [I2 [Hfree Hrel]]]]]. rewrite He in Hn.
+    set (s1 := set_inflight (set_pub (set_last_puback (push_event s (EvIn (PPubAck (p_pkid q)))) (p_pkid q)) l) (inflight (push_event s (EvIn (PPubAck (p_pkid q)))) - 1)) in *.
+    destruct (ack_tail_eff s1 (p_pkid q) I2 H1) as [[q' [l' [Hc' [Hid [Hl' He']]]]] | [Hne He']]; subst s1; sproj; auto.
+    + intros x Hx. apply (i_coll s I x Hx).
+    + rewrite He' in Hn. cbn [out2] in Hn. inversion Hn. subst s' rep. rewrite Hc in Hc'. inversion Hc'. subst q'.
+      sproj. repeat split. eapply vget_vset_same; eauto.
+    + exfalso. apply (Hne q Hc). reflexivity.
+  - destruct (handle_incoming_pubcomp_eff _ (p_pkid q) I1') as [[Hnone _] | [_ [rl [Hrl Hrest]]]].
+    { sproj. congruence. }
+    cbv zeta in Hrest. destruct Hrest as [He [H1 [Hpos [I2 [Hfree Hrel]]]]]. rewrite He in Hn.
+    set (s1 := set_inflight (set_rel (push_event s (EvIn (PPubComp (p_pkid q)))) rl) (inflight (push_event s (EvIn (PPubComp (p_pkid q)))) - 1)) in *.
+    destruct (ack_tail_eff s1 (p_pkid q) I2 H1) as [[q' [l' [Hc' [Hid [Hl' He']]]]] | [Hne He']]; subst s1; sproj; auto.
+    + intros x Hx. apply (i_coll s I x Hx).
+    + rewrite He' in Hn. cbn [out2] in Hn. inversion Hn. subst s' rep. rewrite Hc in Hc'. inversion Hc'. subst q'.
+      sproj. repeat split. eapply vget_vset_same; eauto.
+    + exfalso. apply (Hne q Hc). reflexivity.
+Qed.
+
+(** the hypotheses of the theorems above are met by non-trivial reachable states: a history with
+    wrap-around, a parked collision and its resolution by PUBCOMP honours the contract *)
+Example contract_nontrivial :
+  let h := [Out (RPublish (mkPub Q2 0 1 1)); Out (RPublish (mkPub Q1 0 2 2)); Inc (PPubAck 2);
+            Out (RPublish (mkPub Q1 0 3 3)); Inc (PPubRec 1); Inc (PPubComp 1); Inc (PPubAck 7); Clean] in
+  contract (init 2 false) h = true /\
+  option_map (fun s => (inflight s, collision s)) (run (init 2 false) (firstn 4 h)) = Some (1, Some (mkPub Q1 1 3 3)).
+Proof. vm_compute. split; reflexivity. Qed.
